@@ -284,6 +284,14 @@ fn random_file_graph(tape: &[u8]) -> FileGraph {
     }
     let link_some = t.chance(110);
     let linked: Vec<bool> = (0..n).map(|i| link_some && exists[i] && t.chance(if i % 2 == 1 { 150 } else { 50 })).collect();
+    // an implementation that is a link keeps its signature (if any) in the same real directory, so that
+    // "adjacent" means the same file whether it is read beside the written or beside the canonical path
+    let mut linked = linked;
+    for i in (0..n).step_by(2) {
+        if linked[i] && exists[i + 1] {
+            linked[i + 1] = true;
+        }
+    }
     let decoy: Vec<bool> = (0..n).map(|i| exists[i] && t.chance(30)).collect();
     FileGraph { edges, exists, root, spelling: t.below(6) as u8, linked, decoy }
 }
